@@ -104,7 +104,7 @@ def stepLine (_ : Unit) (line : String) : Unit × String :=
     match words line with
     | ["reset"] => some "ok"
     | ["widths"] => some "64 64 64 32"
-    | ["consts"] => some ("rand-state " ++ toString randStateBits ++ "u ERANGE " ++ toString ERANGE ++ " EINVAL " ++ toString EINVAL)
+    | ["consts"] => some ((if randStateBits ≥ 32 then "rand-state>=32u" else "rand-state " ++ toString randStateBits ++ "u") ++ " ERANGE " ++ toString ERANGE ++ " EINVAL " ++ toString EINVAL)
     | ["ctype"] => some (String.join ((List.range 384).map fun (i : Nat) => hexOfNat 2 (ctypeBits (Int.ofNat i - 128))))
     | ["premain", _] => some premainLine
     | ["stx", _, _, _] => some "returns"
@@ -163,7 +163,11 @@ def stepLine (_ : Unit) (line : String) : Unit × String :=
         let mem := t ++ [0#8]
         match fn with
         | "l" => pure (match atol 64 mem with | some v => hex64 v | none => "fault")
-        | "i" => pure (match atoi 64 32 mem with | some v => hexOfNat 8 (v % 2 ^ 32).toNat | none => "fault")
+        | "i" =>
+          -- outside `int` the call is undefined in ISO 7.22.1.2: the value is not part of the observable
+          let dv := Spec.decimalValue t
+          if dv < -(2 ^ 31) ∨ dv ≥ 2 ^ 31 then pure "unrepresentable"
+          else pure (match atoi 64 32 mem with | some v => hexOfNat 8 (v % 2 ^ 32).toNat | none => "fault")
         | "ll" => pure (match atoll 64 mem with | some v => hex64 v | none => "fault")
         | _ => none
     | ["rndr", seed, n] => do
